@@ -364,16 +364,20 @@ func GroupByIWithContext[T any, K comparable](iteratee func(ctx context.Context,
 						}
 					},
 					func(ctx context.Context, err error) {
-						destination.ErrorWithContext(ctx, err)
+						// The groups first: the terminal notification of the destination runs the
+						// teardown below, which completes the groups that are still open.
 						notifyAll(func(o Observer[T]) { o.ErrorWithContext(ctx, err) })
 
 						groups = sync.Map{}
+
+						destination.ErrorWithContext(ctx, err)
 					},
 					func(ctx context.Context) {
-						destination.CompleteWithContext(ctx)
 						notifyAll(func(o Observer[T]) { o.CompleteWithContext(ctx) })
 
 						groups = sync.Map{}
+
+						destination.CompleteWithContext(ctx)
 					},
 				),
 			)
